@@ -21,6 +21,7 @@ mod p_c07;
 mod p_c08;
 mod p_c09;
 mod p_c10;
+mod p_c11;
 mod p_c12;
 mod p_c13;
 mod p_c14;
@@ -50,6 +51,7 @@ fn run_one(prop: &str, ctx: &mut CaseCtx) -> CaseResult {
         "C08" => p_c08::run_case(ctx),
         "C09" => p_c09::run_case(ctx),
         "C10" => p_c10::run_case(ctx),
+        "C11" => p_c11::run_case(ctx),
         "C12" => p_c12::run_case(ctx),
         "C13" => p_c13::run_case(ctx),
         "C14" => p_c14::run_case(ctx),
@@ -315,6 +317,7 @@ fn main() {
                 ("C03", _) => p_c03::child_main(&a),
                 ("C04", _) => p_c04::child_main(&a),
                 ("C10", _) => p_c10::child_main(&a),
+                ("C11", _) => p_c11::child_main(&a),
                 _ => {
                     eprintln!("no child role {} for {}", a.role, a.prop);
                     2
